@@ -94,8 +94,16 @@ func NewUnsignedTransaction(outputs []*wire.TxOut, feeRatePerKb btcutil.Amount,
 	fetchInputs InputSource, changeSource *ChangeSource) (*AuthoredTx, error) {
 
 	targetAmount := SumOutputValues(outputs)
+
+	// The first target fee is computed before any input is known, so it
+	// must not assume inputs of a particular type: an estimate that is
+	// larger than what the selected inputs really need would make the
+	// sufficiency test below report insufficient funds although the inputs
+	// cover the outputs plus the required fee (e.g. a single P2TR input,
+	// which is smaller than a P2WPKH one). Start from the size without
+	// inputs; the loop raises the target fee once the inputs are known.
 	estimatedSize := txsizes.EstimateVirtualSize(
-		0, 0, 1, 0, outputs, changeSource.ScriptSize,
+		0, 0, 0, 0, outputs, changeSource.ScriptSize,
 	)
 	targetFee := txrules.FeeForSerializeSize(feeRatePerKb, estimatedSize)
 
